@@ -597,7 +597,7 @@ def install(ex, store):
         p = as_payload(ex, a[1])
         if isinstance(p, Compressed):
             return ok(p.inner)
-        e = enum_val(ex, 'errors::Error', 'DecompressBlock' if ex.prog.src.variant_index('errors::Error', 'DecompressBlock') is not None else 'Snap', [Opaque('snap::Error')])
+        e = ex.do_call(None, '<errors::Error as From<snap::Error>>::from', [Opaque('snap::Error')], None)
         return err(e)
     add(r'(?:compress::snappy::)?Decompressor::decompress', decompress)
 
